@@ -187,6 +187,9 @@ type HistProp struct {
 	New     func() Checker
 	Prelude func() []*sim.Case
 	Require []string // classes that must occur (generator health)
+	// Drive, when set, replaces the default "n times Next" loop; it calls exec for
+	// every op it wants executed and stops at the first violation.
+	Drive func(g *sim.G, exec func(*sim.Op) *Viol) *Viol
 }
 
 var histProps = map[string]*HistProp{}
@@ -258,11 +261,21 @@ func (p *HistProp) Run(t *testing.T) {
 		n := rapid.IntRange(min, p.MaxOps).Draw(rt, "nops")
 		cs := &sim.Case{Property: p.ID, Gen: gs}
 		g := &sim.G{T: rt, W: w}
-		for i := 0; i < n; i++ {
-			op := p.Next(g, i)
+		exec := func(op *sim.Op) *Viol {
 			cs.Ops = append(cs.Ops, op)
 			s := w.Exec(op)
-			if v := chk.Step(w, s); v != nil {
+			return chk.Step(w, s)
+		}
+		if p.Drive != nil {
+			if v := p.Drive(g, exec); v != nil {
+				cs.Finalize()
+				saveFail(p.ID, "history", cs, v)
+				rt.Fatalf("VIOLATION %s", v)
+			}
+			n = 0
+		}
+		for i := 0; i < n; i++ {
+			if v := exec(p.Next(g, i)); v != nil {
 				cs.Finalize()
 				saveFail(p.ID, "history", cs, v)
 				rt.Fatalf("VIOLATION %s", v)
